@@ -81,7 +81,7 @@ CHECKS = {
         tech="deterministic simulation: seeded training histories with trainer shims + float64 reference surrogates and autograd comparison"),
     "C17": dict(
         cat="exploration", ref="5/C17",
-        text="Operation sequences against a reference list of instance fingerprints: the three dataset classes (+ExtraKeyDataset via add_key) over fields of mixed dtype (float16/32/64, int32/64, uint8, bool) and float32/float64/int64 extra keys, eight loader modes (unshuffled, seeded/global shuffle, explicit sampler, _dataloader_single, _dataloader, dict of datasets), batch sizes dividing or not, several epochs; and real REINFORCE modules with rollout / warm-up baselines through setup, train_dataloader, on_train_epoch_end regeneration and re-wrapping: unshuffled reads reproduce order, values, dtypes, shapes and the partial batch; shuffled reads are permutations with fields kept together; the extra travelling with an instance equals the baseline policy's solo greedy reward on it (a value that differs must at least be the inference-mode value of its evaluation batch; eval()/train() flips between epochs are injected).",
+        text="Operation sequences against a reference list of instance fingerprints: the three dataset classes (+ExtraKeyDataset via add_key) over fields of mixed dtype (float16/32/64, int32/64, uint8, bool) and float32/float64/int64 extra keys, eight loader modes (unshuffled, seeded/global shuffle, explicit sampler, _dataloader_single, _dataloader, dict of datasets), batch sizes dividing or not, several epochs; and real REINFORCE and MDAM modules with rollout / warm-up baselines (handed over by name or as objects) through setup, train_dataloader, on_train_epoch_end regeneration and re-wrapping: unshuffled reads reproduce order, values, dtypes, shapes and the partial batch; shuffled reads are permutations with fields kept together; the extra travelling with an instance equals the baseline policy's solo greedy reward on it (a value that differs must at least be the inference-mode value of its evaluation batch; eval()/train() flips between epochs are injected).",
         note="num_workers=0 only; training replaced by seeded parameter noise.",
         tech="deterministic simulation: seeded operation sequences against a reference fingerprint list"),
     "C18": dict(
